@@ -367,6 +367,21 @@ def _symmetric_tail(repo: Repo, chk: Check, f: Func, fl: Flow) -> None:
     resets = [s for s in fl.stmts(ast.Assign, ast.AnnAssign) if s.reachable and isinstance(getattr(s.node, "value", None), ast.List) and not s.node.value.elts and s.loops]
     under_sync = [s for s in resets if has_fact(s, ["isinstance($o, snax.ClusterSyncOp)", "isinstance($o, ClusterSyncOp)"])]
     under_insert = [s for s in resets if has_fact(s, ["$o in $l"])]
+    if not (under_sync and under_insert):
+        # one reset for both: `if <pending op reached> or isinstance(op, ClusterSyncOp): pending = []` - a disjunction whose
+        # every disjunct is one of the two barrier cases
+        SYNC = ["isinstance($o, snax.ClusterSyncOp)", "isinstance($o, ClusterSyncOp)"]
+        for s in resets:
+            for fa in s.facts:
+                e_ = norm.primary(fa.expr) if fa.kind == "atom" else None
+                if not (isinstance(e_, ast.BoolOp) and isinstance(e_.op, ast.Or)):
+                    continue
+                kinds = ["sync" if norm.any_match(SYNC, d_) is not None else "pending" if norm.any_match(["$o in $l"], d_) is not None else "other" for d_ in e_.values]
+                if "other" not in kinds:
+                    if "sync" in kinds:
+                        under_sync.append(s)
+                    if "pending" in kinds:
+                        under_insert.append(s)
     chk.result(bool(under_sync) and bool(under_insert), "C13.symmetric", f"{f.key}:resets", f.where,
                "both an existing and an inserted barrier reset the pending list")
     every_value(chk, f, fl)
